@@ -86,3 +86,11 @@ Proof.
 Qed.
 Lemma octets_ok_app a b : octets_ok (a ++ b) = octets_ok a && octets_ok b.
 Proof. unfold octets_ok. apply forallb_app. Qed.
+
+Ltac list_eq_lia :=
+  repeat match goal with
+  | |- Ok _ = Ok _ => f_equal
+  | |- Some _ = Some _ => f_equal
+  | |- (_, _) = (_, _) => f_equal
+  | |- _ :: _ = _ :: _ => f_equal
+  end; try reflexivity; try lia.
